@@ -86,6 +86,12 @@ fn check_pair(ctx: &mut Ctx, rx: &Reps, ry: &Reps) -> CaseResult {
     toname_pair(ctx, "chain/chain", &rx.c, &ry.c, rx, ry, want)?;
     toname_pair(ctx, "uncertain-chain/chain", &rx.cu, &ry.c, rx, ry, want)?;
     toname_pair(ctx, "uncertain-chain/bytes", &rx.cu, &ry.b, rx, ry, want)?;
+    // a reference to a name is a ToName of its own (`impl ToName for &N`)
+    // that does not offer a flat slice: one more non-flat representation
+    toname_pair(ctx, "ref-vec/vec", &&rx.v, &ry.v, rx, ry, want)?;
+    toname_pair(ctx, "vec/ref-slice", &rx.v, &ry.s, rx, ry, want)?;
+    toname_pair(ctx, "ref-bytes/ref-parsed", &&rx.b, &&ry.p, rx, ry, want)?;
+    toname_pair(ctx, "parsed/ref-vec", &rx.p, &&ry.v, rx, ry, want)?;
     // Ord on identical types
     let detail = || format!("a={} b={}", gn::show(rx.labels), gn::show(ry.labels));
     law!(ctx, rx.v.cmp(&ry.v) == want, "name:cmp-vs-rfc4034-6.1", "vec {} got {:?} want {want:?}", detail(), rx.v.cmp(&ry.v));
@@ -112,6 +118,7 @@ fn check_pair(ctx: &mut Ctx, rx: &Reps, ry: &Reps) -> CaseResult {
     law!(ctx, rx.rel.cmp(&ry.rel) == want && rx.rel.partial_cmp(&ry.rel) == Some(want), "relname:cmp-vs-rfc4034-6.1", "{} got {:?} want {want:?}", detail(), rx.rel.cmp(&ry.rel));
     law!(ctx, (rx.rel == ry.crel) == (want == Ordering::Equal) && rx.rel.partial_cmp(&ry.crel) == Some(want), "relname:chain-vs-reference", "{}", detail());
     law!(ctx, ToRelativeName::name_cmp(&rx.crel, &ry.crel) == want && ToRelativeName::name_eq(&rx.crel, &ry.rel) == (want == Ordering::Equal), "relname:chain-vs-reference", "{}", detail());
+    law!(ctx, ToRelativeName::name_eq(&rx.rel, &ry.crel) == (want == Ordering::Equal) && ToRelativeName::name_eq(&&rx.rel, &ry.rel) == (want == Ordering::Equal) && ToRelativeName::name_eq(&rx.rel, &&ry.rel) == (want == Ordering::Equal), "relname:name_eq-vs-reference", "{}", detail());
     law!(ctx, (rx.ur == ry.ur) == (want == Ordering::Equal), "uncertain:eq-vs-reference", "relative {}", detail());
     if want == Ordering::Equal {
         law!(ctx, h2(&rx.rel) == h2(&ry.rel), "relname:equal-but-hash-differs", "{}", detail());
@@ -177,13 +184,30 @@ fn relative(u: &mut Unstructured, src: &Labels, pool: &[Labels]) -> (Labels, &'s
                 let i = pick(u, c.len() - 1);
                 if c[i].len() + c[i + 1].len() + 1 <= 63 {
                     let b = c.remove(i + 1);
-                    c[i].push(b'.');
+                    // the joining octet is a literal dot (a.b vs a\.b), or
+                    // the length octet of the absorbed label (then the two
+                    // wire forms have the same length and differ in ONE
+                    // length octet only: \001a\001b vs \003a\001b), or
+                    // any octet near the letter ranges
+                    let join = match pick(u, 4) {
+                        0 | 1 => b'.',
+                        2 => b.len() as u8,
+                        _ => super::atoms::NEAR[pick(u, super::atoms::NEAR.len())],
+                    };
+                    c[i].push(join);
                     c[i].extend_from_slice(&b);
                 }
                 (c, "boundary")
             } else if !c.is_empty() {
                 let i = pick(u, c.len());
-                if c[i].len() >= 2 && gn::wire_len(&c) < 255 {
+                if c[i].len() >= 3 && flag(u) {
+                    // "aXb" -> "a" "b": the octet X gives way to a length
+                    // octet, the wire length stays the same
+                    let at = 1 + pick(u, c[i].len() - 2);
+                    let tail = c[i].split_off(at + 1);
+                    c[i].pop();
+                    c.insert(i + 1, tail);
+                } else if c[i].len() >= 2 && gn::wire_len(&c) < 255 {
                     let at = 1 + pick(u, c[i].len() - 1);
                     let tail = c[i].split_off(at);
                     // "ab" -> "a" "b": same octets, one more boundary
@@ -228,6 +252,42 @@ fn relative(u: &mut Unstructured, src: &Labels, pool: &[Labels]) -> (Labels, &'s
         7 | 8 => (pool[pick(u, pool.len())].clone(), "pool"),
         _ => (gn::name(u, false), "fresh"),
     }
+}
+
+/// The `Borrow` entry points: `Name<Octs>: Borrow<Name<[u8]>>` and
+/// `RelativeName<Octs>: Borrow<RelativeName<[u8]>>` exist so that a map keyed
+/// by an owned name can be queried with a name over a slice. The lookup must
+/// find exactly the entries the §6.1 reference calls equal — with any
+/// hasher, so the maps use the call-sequence and the word-at-a-time hasher
+/// besides SipHash.
+fn borrow_lookups(ctx: &mut Ctx, trip: &[Labels; 3], reps: &[Reps]) -> CaseResult {
+    use std::collections::HashMap;
+    use std::hash::BuildHasherDefault;
+    fn lookups<S: std::hash::BuildHasher + Default>(ctx: &mut Ctx, what: &str, trip: &[Labels; 3], reps: &[Reps]) -> CaseResult {
+        let mut abs: HashMap<NV, usize, S> = HashMap::default();
+        let mut byt: HashMap<NB, usize, S> = HashMap::default();
+        let mut rel: HashMap<RV, usize, S> = HashMap::default();
+        for (i, r) in reps.iter().enumerate() {
+            abs.entry(r.v.clone()).or_insert(i);
+            byt.entry(r.b.clone()).or_insert(i);
+            rel.entry(r.rel.clone()).or_insert(i);
+        }
+        for (j, r) in reps.iter().enumerate() {
+            let want = (0..3).find(|&i| ref_name_cmp(&trip[i], &trip[j]) == Ordering::Equal);
+            let detail = || format!("{what}: map keys {} | {} | {} queried with {}", gn::show(&trip[0]), gn::show(&trip[1]), gn::show(&trip[2]), gn::show(&trip[j]));
+            law!(ctx, abs.get(r.s).copied() == want, "name:map-lookup-by-borrowed-slice", "{} (Name<Vec<u8>> keys) found {:?} want {want:?}", detail(), abs.get(r.s));
+            law!(ctx, byt.get(r.s).copied() == want, "name:map-lookup-by-borrowed-slice", "{} (Name<Bytes> keys) found {:?} want {want:?}", detail(), byt.get(r.s));
+            law!(ctx, abs.get(&r.v).copied() == want, "name:map-lookup", "{} found {:?} want {want:?}", detail(), abs.get(&r.v));
+            let rs: &RelativeName<[u8]> = r.rel.for_slice();
+            law!(ctx, rel.get(rs).copied() == want, "relname:map-lookup-by-borrowed-slice", "{} found {:?} want {want:?}", detail(), rel.get(rs));
+        }
+        Ok(())
+    }
+    lookups::<BuildHasherDefault<DefaultHasher>>(ctx, "siphash", trip, reps)?;
+    lookups::<ChunkBuild>(ctx, "call-sequence hasher", trip, reps)?;
+    lookups::<BuildHasherDefault<WordHasher>>(ctx, "word-at-a-time hasher", trip, reps)?;
+    ctx.class("names:borrow-lookup");
+    Ok(())
 }
 
 pub fn run(data: &[u8], ctx: &mut Ctx) -> CaseResult {
@@ -342,6 +402,20 @@ pub fn run(data: &[u8], ctx: &mut Ctx) -> CaseResult {
                     ctx.class("names:boundary-variant");
                     nontrivial = true;
                 }
+                // same number of wire octets, other label boundaries, and
+                // the octets outside the length octets agree: what an
+                // in-place comparison that trusts one side's label lengths
+                // cannot tell apart
+                if trip[i].len() != trip[j].len() && wires[i].len() == wires[j].len() {
+                    let diff = (0..wires[i].len()).filter(|&p| !wires[i][p].eq_ignore_ascii_case(&wires[j][p])).count();
+                    if diff <= 2 {
+                        ctx.class("names:boundary-same-wire-length");
+                        if reps[i].p_has_pointer != reps[j].p_has_pointer {
+                            ctx.class("names:boundary-same-wire-length:flat-vs-compressed");
+                        }
+                        nontrivial = true;
+                    }
+                }
                 let (a, b) = (&trip[i], &trip[j]);
                 if a.len() != b.len() && (a.ends_with(b) || b.ends_with(a) || a.starts_with(b) || b.starts_with(a)) {
                     ctx.class("names:prefix-or-parent");
@@ -358,6 +432,7 @@ pub fn run(data: &[u8], ctx: &mut Ctx) -> CaseResult {
             }
         }
     }
+    borrow_lookups(ctx, &trip, &reps)?;
     for (a, b, c) in [(0, 1, 2), (1, 0, 2), (0, 2, 1), (2, 0, 1), (1, 2, 0), (2, 1, 0)] {
         law!(ctx, transitive(ords[a][b], ords[b][c], ords[a][c]), "name:cmp-not-transitive", "{} {} {}", gn::show(&trip[a]), gn::show(&trip[b]), gn::show(&trip[c]));
     }
